@@ -22,7 +22,7 @@ MANIFEST = dict(
          "(numbers reach the renderer as their str() text, normalisation is C14).",
     technique="Lean 4 proof (list induction, mutual structural induction over the tree, decide +kernel for table side conditions) + differential correspondence",
 )
-PROP_FILES = ["HtmlVerif/Props/C02.lean", "HtmlVerif/Props/SrcEscape.lean"]
+PROP_FILES = ["HtmlVerif/Props/C02.lean", "HtmlVerif/Props/SrcEscape.lean", "HtmlVerif/Props/SrcRender.lean"]
 ALPHA = "&<>;#a"
 
 
